@@ -8,7 +8,7 @@ from ..models import make_interp
 from ..tmplcheck import family_results, report
 
 FLOORS = {"C07.P1.starts-at-address": 300, "C07.P1.ends-at-bar": 300, "C07.P2.separator-discipline": 1000,
-          "C07.P3.macro-wildcards": 1, "C07.P4.address-is-prefix-of-match": 2}
+          "C07.P3.macro-wildcards": 1, "C07.P4.address-is-prefix-of-match": 2, "C07.P5.scan-starts-at-stream-start": 8}
 
 
 def run(ctx) -> None:
@@ -31,6 +31,15 @@ def run(ctx) -> None:
     # H: the record format Lemma B assumes (shared with C10.W)
     from .c10 import writer_rules
     writer_rules(ctx, "C07.H.record-format", "C07.H.record-terminator")
+    # H: record fields come only from the address / mnemonic / operand groups (a '<sym::bol>' annotation never enters)
+    from ._parser import instr_patterns, operands_from_operand_group
+    _paths, _sites, _pats = instr_patterns(make_interp(ctx.p))
+    operands_from_operand_group(ctx, "C07.H.operands-only-from-operand-group", make_interp(ctx.p), _sites)
+    from ._parser import site_field_kinds
+    site_field_kinds(ctx, "C07.H.address-field-is-the-line-address", make_interp(ctx.p), _sites)
+    # P5: Lemma B is about a search over the whole stream from its first character (no pos/endpos, no slice)
+    from ._matchrules import scan_rules
+    scan_rules(ctx, "C07.P5.scan-starts-at-stream-start", "C07.P5.scan-over-whole-stream")
     # P3 shipped macro file
     f = ctx.p.root / "tests" / "macros" / "jasm_macros.yaml"
     if not f.exists():
